@@ -266,6 +266,11 @@ func vOpenDBPolicy(policy common.ExpirationPolicy) *vDB {
 		cfg.EnableTableCounter = true
 		db := &RockDB{cfg: cfg, rockEng: e, wb: e.DefaultWriteBatch(), indexMgr: NewIndexMgr(),
 			topLargeCollKeys: metric.NewCollSizeHeap(metric.DefaultHeapCapacity), engOpened: 1}
+		hc, err := newHLLCache(8, 8, db)
+		if err != nil {
+			panic(err)
+		}
+		db.hllCache = hc
 		if policy == common.WaitCompact {
 			db.expiration = newCompactExpiration(db)
 		} else {
